@@ -463,7 +463,7 @@ func buildCases(r *vk.Run) []Case {
 	r.Set("outcome_sequences_enumerated", len(seqs))
 	var cases []Case
 	starts := []uint64{0, 1, 17}
-	reps := r.N(1, 3)
+	reps := r.N(1, 6)
 	var all [][]string
 	for k := 0; k < reps; k++ {
 		all = append(all, seqs...)
